@@ -215,7 +215,10 @@ class SpatialCoordinate(GeometricCellQuantity):
             else:
                 return float(x)
         else:
-            return float(x[component[0]])
+            if isinstance(x, tuple | list):
+                return float(x[component[0]])
+            # A point of a one-dimensional domain given as a plain number
+            return float(x)
 
     def count(self):
         """Count."""
